@@ -230,6 +230,7 @@ class Unit:
         self.items = []     # verbatim items
         self.log = []
         self.trusted = []   # assumption scan filled later
+        self.absent = []    # optional helper functions that are no longer in the source (T17)
 
 def _sigidx(toks):
     return [i for i, t in enumerate(toks) if t.k not in ("ws", "lc", "bc", "doc")]
@@ -776,13 +777,29 @@ def _process(unit, path, twin):
                 parts = [p.strip() for p in a.split("|")]
                 add_item(unit, parts[0], parts[1:], tuple(opts.split()))
             elif cmd == "impl":
-                parts = [p.strip() for p in arg.split("|")]
-                check_impl(unit, parts[0], parts[1])
+                a, _, opts = arg.partition(";")
+                parts = [p.strip() for p in a.split("|")]
+                try:
+                    check_impl(unit, parts[0], parts[1])
+                except ScanError as e:
+                    if "optional" not in opts.split():
+                        raise
+                    unit.log.append("T17 %s: impl header `%s` is gone (optional helper impl): skipped" % (parts[0], parts[1]))
             elif cmd == "use":
                 ws = arg.split()
                 fs = load_vc(ws[0])
                 fs.nobody = fs.nobody or "nobody" in ws[1:]
                 _twin(fs, twin)
+                if "optional" in ws[1:]:
+                    # T17: a private helper whose contract only serves its callers.  When the function itself is gone from
+                    # the source (inlined, renamed), its contract is dropped and its callers - which are under contract for
+                    # the same properties - are verified against the text that remains.  Anything else is still a lost anchor.
+                    try:
+                        rsscan.find_item(file_tokens(fs.file), fs.path)
+                    except ScanError as e:
+                        unit.absent.append(fs.ident)
+                        unit.log.append("T17 %s::%s: optional helper is gone from the source; contract dropped, callers carry the obligation" % (fs.file, "/".join(fs.path)))
+                        continue
                 add_fn(unit, fs)
             elif cmd == "fn":
                 # inline contract block until //@end
